@@ -323,21 +323,48 @@ func monC18(c *drv.Ctx) {
 			}
 		}
 		pairs := 0
-		for _, e := range pool {
-			if !hasProtocolOnChain(e) {
-				continue
+		type msger interface{ Msg() string }
+		type ider interface{ TypeId() int32 }
+		for pass := 0; pass < 2; pass++ {
+			for _, e := range pool {
+				if !hasProtocolOnChain(e) {
+					continue
+				}
+				for _, x := range pool {
+					got := errors.Is(e.err, x.err)
+					want := modelIs(e, x)
+					pairs++
+					if got != want {
+						cs.Fail("errors-is", M{"receiver": ekNames[e.kind], "target": ekNames[x.kind], "got": got, "after_error_text_was_taken": pass == 1}, M{"receiver": e.describe(), "target": x.describe(), "message": fmt.Sprintf("errors.Is = %v, the statement gives %v", got, want)})
+						return
+					}
+					if want {
+						cs.C.Obs("is-pairs matching", 1)
+					}
+				}
 			}
-			for _, x := range pool {
-				got := errors.Is(e.err, x.err)
-				want := modelIs(e, x)
-				pairs++
-				if got != want {
-					cs.Fail("errors-is", M{"receiver": ekNames[e.kind], "target": ekNames[x.kind], "got": got}, M{"receiver": e.describe(), "target": x.describe(), "message": fmt.Sprintf("errors.Is = %v, the statement gives %v", got, want)})
-					return
+			if pass == 0 {
+				// taking the text of an error (logging it) must not change what it is: same type id, same
+				// message, same matches afterwards
+				for _, e := range pool {
+					var id0 int32
+					var m0 string
+					ie, hasID := e.err.(ider)
+					me, hasMsg := e.err.(msger)
+					if hasID {
+						id0 = ie.TypeId()
+					}
+					if hasMsg {
+						m0 = me.Msg()
+					}
+					t1 := e.err.Error()
+					t2 := fmt.Sprintf("%v", e.err)
+					if t1 != t2 || (hasID && ie.TypeId() != id0) || (hasMsg && me.Msg() != m0) {
+						cs.Fail("error-text-not-pure", M{"kind": ekNames[e.kind]}, M{"term": e.describe(), "first": t1, "second": t2, "msg_before": m0, "message": "Error() changed the exception (type id, message or its own result)"})
+						return
+					}
 				}
-				if want {
-					cs.C.Obs("is-pairs matching", 1)
-				}
+				cs.C.Obs("error texts taken between two Is passes", int64(len(pool)))
 			}
 		}
 		cs.C.Obs("is-pairs compared", int64(pairs))
